@@ -804,4 +804,147 @@ func ruleWRAPKEEP(c *Ctx, r *Report) {
 		}
 	}
 	r.floor(rule, "wrapper results", n, 1)
+	// the constructors the wrapper calls must store the operand they are given: an operand slot of a
+	// (variadic) parameter overwritten before it is stored puts another node into the tree
+	nC := 0
+	for _, g := range sortedFuncs(c.reachFrom([]*ssa.Function{w})) {
+		if g == w || fnPkgPath(g) != pkgExpr || len(g.Blocks) == 0 {
+			continue
+		}
+		nC++
+		for _, b := range g.Blocks {
+			for _, in := range b.Instrs {
+				st, ok := in.(*ssa.Store)
+				if !ok {
+					continue
+				}
+				ia, ok := st.Addr.(*ssa.IndexAddr)
+				if !ok {
+					continue
+				}
+				if prm, isParam := c.resolve(ia.X, nil).(*ssa.Parameter); isParam {
+					if c.slotGuardExcludesExpr(st, ia) || c.storesIdentityOnExpr(st, ia) {
+						r.ok(rule, fnName(g)+"|operand-slot|"+prm.Name(), c.instrPos(in), "only a raw payload (not an expression) in the slot is converted")
+						continue
+					}
+					r.bad(rule, fnName(g)+"|operand-slot|"+prm.Name(), c.instrPos(in), fmt.Sprintf("%s overwrites an element of its operand list %s with %s before building the node: the term the wrapper hands over is replaced (e.g. re-typed by its text), so the scoped tree holds another leaf than the tree without the option", fnName(g), prm.Name(), c.key(st.Val, nil)))
+				}
+			}
+		}
+	}
+	r.ok(rule, "constructors-examined", "-", fmt.Sprintf("%d functions of package expr reachable from the wrapper examined for operand-slot stores", nC))
+}
+
+// slotGuardExcludesExpr: the store into an operand slot is dominated by a positive test, on that same slot, of a
+// module predicate that can only be true for dynamic types other than *expr.Expression (isLiteral: string, number,
+// bool, Column) — expressions handed to the constructor are never replaced.
+func (c *Ctx) slotGuardExcludesExpr(st *ssa.Store, slot *ssa.IndexAddr) bool {
+	sk := c.key(slot, nil)
+	sk = strings.TrimPrefix(sk, "&")
+	for _, f := range c.domFacts(st.Block()) {
+		cond, pol := f.Cond, f.Pol
+		for {
+			if u, ok := cond.(*ssa.UnOp); ok && u.Op == token.NOT {
+				cond, pol = u.X, !pol
+				continue
+			}
+			break
+		}
+		call, ok := cond.(*ssa.Call)
+		if !ok || !pol || call.Call.StaticCallee() == nil || !inLib(call.Call.StaticCallee()) || len(call.Call.Args) != 1 {
+			continue
+		}
+		if ak := c.key(call.Call.Args[0], nil); ak != sk {
+			continue
+		}
+		if c.trueOnlyForNonExpr(call.Call.StaticCallee()) {
+			return true
+		}
+	}
+	return false
+}
+
+// trueOnlyForNonExpr: every path on which the one-argument predicate returns true has established a dynamic type
+// of its argument other than *expr.Expression.
+func (c *Ctx) trueOnlyForNonExpr(g *ssa.Function) bool {
+	if len(g.Params) != 1 || g.Signature.Results().Len() != 1 || !isBool(g.Signature.Results().At(0).Type()) {
+		return false
+	}
+	paths, complete := c.enumPathsOpt(g, 4000, c.inlBool())
+	if !complete || len(paths) == 0 {
+		return false
+	}
+	for _, p := range paths {
+		if p.Ret == nil {
+			return false
+		}
+		rv, re := c.resolveE(p.Ret.Results[0], p.Env)
+		typed := false
+		for _, a := range c.expand(p.Atoms, p.Env) {
+			if a.Kind == "type" && a.Pos && a.Subj == "$0" && a.Val != "*expr.Expression" {
+				typed = true
+			}
+		}
+		if b, isConst := constBoolVal(rv); isConst {
+			if b && !typed {
+				return false
+			}
+			continue
+		}
+		// the result is the ok of a comma-ok assertion on the argument
+		ex, isEx := rv.(*ssa.Extract)
+		if !isEx || ex.Index != 1 {
+			return false
+		}
+		ta, isTA := ex.Tuple.(*ssa.TypeAssert)
+		if !isTA || !ta.CommaOk || c.key(ta.X, re) != "$0" || typeStr(ta.AssertedType) == "*expr.Expression" {
+			if !typed {
+				return false
+			}
+		}
+	}
+	return true
+}
+
+// storesIdentityOnExpr: the value stored into the operand slot is g(slot) for a module function g that hands an
+// *expr.Expression argument back unchanged (every path either returns the argument itself, asserted to
+// *Expression, or has found that the argument is not an *Expression).
+func (c *Ctx) storesIdentityOnExpr(st *ssa.Store, slot *ssa.IndexAddr) bool {
+	v := c.resolve(st.Val, nil)
+	if mi, ok := v.(*ssa.MakeInterface); ok {
+		v = c.resolve(mi.X, nil)
+	}
+	call, ok := v.(*ssa.Call)
+	if !ok || call.Call.StaticCallee() == nil || !inLib(call.Call.StaticCallee()) || len(call.Call.Args) != 1 {
+		return false
+	}
+	if c.key(call.Call.Args[0], nil) != strings.TrimPrefix(c.key(slot, nil), "&") {
+		return false
+	}
+	g := call.Call.StaticCallee()
+	paths, complete := c.enumPathsOpt(g, 4000, c.inlBool())
+	if !complete || len(paths) == 0 {
+		return false
+	}
+	for _, p := range paths {
+		if p.Ret == nil || len(p.Ret.Results) != 1 {
+			return false
+		}
+		notExpr := false
+		for _, a := range c.expand(p.Atoms, p.Env) {
+			if a.Kind == "type" && !a.Pos && a.Subj == "$0" && a.Val == "*expr.Expression" {
+				notExpr = true
+			}
+			if a.Kind == "type" && a.Pos && a.Subj == "$0" && a.Val != "*expr.Expression" {
+				notExpr = true
+			}
+		}
+		if notExpr {
+			continue
+		}
+		if k := c.key(p.Ret.Results[0], p.Env); k != "$0.(*expr.Expression)" && k != "$0" {
+			return false
+		}
+	}
+	return true
 }
